@@ -135,6 +135,13 @@ def job_twins(ctx, k):
     for ver in (1, 2):
         _cmp_batch(ctx, f'q2R(version={ver}) batch row = single', labels,
                    lambda idx: np.asarray(O.q2R(Q[idx].copy(), ver)), lambda i: O.q2R(Q[i].copy(), ver), 'func:q2R')
+        # rows that are not unit quaternions (raw integration output, scaled rows): the N-row path normalises like the one-item path, for both versions
+        scl = np.array([3.0, 0.25, 1.0, 17.0, 0.9])
+        Qn = Q * scl[np.arange(len(Q)) % len(scl)][:, None]
+        _cmp_batch(ctx, f'q2R(version={ver}) batch row = single (non-unit rows)', labels,
+                   lambda idx: np.asarray(O.q2R(Qn[idx].copy(), ver)), lambda i: O.q2R(Qn[i].copy(), ver), 'func:q2R')
+    _cmp_batch(ctx, 'DCM.from_quaternion batch row = single (non-unit rows)', labels,
+               lambda idx: np.asarray(DCM().from_quaternion(Qn[idx].copy())), lambda i: DCM().from_quaternion(Qn[i].copy()), 'func:from_quaternion')
     _cmp_batch(ctx, 'DCM.from_quaternion batch row = single', labels,
                lambda idx: np.asarray(DCM().from_quaternion(Q[idx].copy())), lambda i: DCM().from_quaternion(Q[i].copy()), 'func:from_quaternion')
     # Quaternion.rotate on a 3-by-N block of column vectors: column j = rotate(column j), for every small N (N = 3 is a square block)
